@@ -472,6 +472,18 @@ class Engine:
         return out
 
     def binop(self, op, a, b, st):
+        for v_ in (a, b):
+            if v_.t[0] == "opt" and not self.spec:
+                # arithmetic / concatenation with None is a TypeError
+                s_none = st.fork()
+                s_none.assume(v_.x[0])
+                if feasible(s_none):
+                    self.do_raise(s_none, "TypeError", 0)
+                st.assume(znot(v_.x[0]))
+        if a.t[0] == "opt":
+            a = a.x[1]
+        if b.t[0] == "opt":
+            b = b.x[1]
         ka, kb = a.t[0], b.t[0]
         if ka == "int" and kb == "int":
             if isinstance(op, ast.Add):
